@@ -14,3 +14,16 @@ VARIANTS = [
  dict(id='c14-template-kernel1-outer-with-itself-only', prop='C14', expect='C14-D12', file='scared/distinguishers/template.py',
       old="                    self_exxi[data_value, sample_idx] += x * traces[trace_idx]\n", new="                    self_exxi[data_value, sample_idx, sample_idx] += x * x\n"),
 ]
+
+# mutants of refactored shapes (round 7): the refactoring is applied first (base), the defect on top of it
+VARIANTS += [
+ dict(id='c14-p2ref3-flag-guard-negated', prop='C14', base='P2-REF3', expect='C14-D10', file=T,
+      old="            first_sample = sample_idx == 0\n", new="            first_sample = sample_idx != 0\n"),
+ dict(id='c14-p2ref1-generator-biased-divisor', prop='C14', base='P2-REF1', expect='C14-D9', file=T,
+      old="            yield (self._exxi[i] - mean_product) / (counters[i] - 1)\n", new="            yield (self._exxi[i] - mean_product) / counters[i]\n"),
+ dict(id='c14-p2ref2-table-without-covariance', prop='C14', base='P2-REF2', expect='C14-D1', file='scared/analysis/template.py',
+      old="        ('pooled_covariance', 'pooled_covariance'),\n", new=""),
+ dict(id='c14-p2ref2-table-crossed', prop='C14', base='P2-REF2', expect='C14-D2', file='scared/analysis/template.py',
+      old="        ('pooled_covariance_inv', 'pooled_covariance_inv'),\n        ('pooled_covariance', 'pooled_covariance'),\n",
+      new="        ('pooled_covariance_inv', 'pooled_covariance'),\n        ('pooled_covariance', 'pooled_covariance_inv'),\n"),
+]
